@@ -21,7 +21,7 @@ LEVEL = "exploration"
 RULE = (
     "(a) every key of the extension and file-name tables x {default, --multi-line, --single-line where the style supports it}; (b) every --style name x "
     "the same line modes on an unrecognised file; (c) Hypothesis: file type x --style x line mode x {none, --force-dot-license, --fallback-dot-license} x "
-    "prefix x year options x template {default, prose, without contributors, pre-commented} x body {empty, code, comment lines in the same style, "
+    "prefix x year options x template {default, prose, without contributors, pre-commented, with a fixed notice of its own} x body {empty, code, comment lines in the same style, "
     "shebang / first-line declaration, blank-line runs} free of REUSE tags x {ordinary request, request that makes the header longer than 4 KiB} x {no merge, --merge-copyrights, with two statements of one holder, with a hand-written year range} x N in 2..4 runs.  Oracle: tree bytes identical after run 1 and every later "
     "run; every requested notice / licence / contributor line occurs once in the target file.  Non-trivial = not (python style, default options, empty "
     "body); distinct by case."
@@ -55,7 +55,7 @@ def case(draw):
     style = draw(st.one_of(st.none(), st.sampled_from(sorted(S.STYLES)))) if kind != "unrecognised" else draw(st.sampled_from(sorted(S.STYLES)))
     return {"name": name, "style": style, "line": draw(st.sampled_from([None, None, "single", "multi"])),
             "dot": draw(st.sampled_from([None, None, None, "force", "fallback"])),
-            "template": draw(st.sampled_from([None, None, "prose", "nocontrib", "commented"])),
+            "template": draw(st.sampled_from([None, None, "prose", "nocontrib", "commented", "fixedline"])),
             "req": draw(AN.request()), "body": draw(st.sampled_from(["empty", "code", "comment", "shebang", "blanks", "shebang+comment", "no-final-newline"])),
             "runs": draw(st.integers(2, 4)), "eol": draw(st.sampled_from(["\n", "\n", "\r\n", "\r"])),
             # a header of more than 4 KiB (the size of the window the linter reads): 60 more holders and 60 more contributors
